@@ -338,10 +338,18 @@ def run_case(case):
 
 def run_func(case):
     """module-level flatten() / merge()"""
-    kind, arg, inp = case
+    kind, arg, inp = case[:3]
+    via = case[3] if len(case) > 3 else None     # None | 'T' (spec=T given explicitly) | 'wrap' (the input sits at target['a']['b'], spec='a.b')
     outer, menu, idxs = inp
     target = mk_input(outer, menu, idxs, False)
+    inner = target
     before = canon(target) if outer != 'gen' else None
+    extra = {}
+    if via == 'T':
+        extra = {'spec': T}
+    elif via == 'wrap':
+        target = {'a': {'b': inner}}
+        extra = {'spec': 'a.b'}
     try:
         items = ref_items(outer, menu, idxs)
         if kind == 'flatten':
@@ -365,21 +373,23 @@ def run_func(case):
             kw = {'levels': arg[0]}
             if arg[1] != 'list':
                 kw['init'] = INITS[arg[1]]
-            res = flatten(target, **kw)
+            res = flatten(target, **kw, **extra)
         else:
-            res = merge(target, init=INITS[arg]) if arg != 'dict' else merge(target)
+            res = merge(target, init=INITS[arg], **extra) if arg != 'dict' else merge(target, **extra)
         got = ('ok', res)
     except Exception as e:
         got = ('err', e)
-    where = {'call': '%s(%r)' % (kind, arg), 'input': inp}
+    where = {'call': '%s(%r)' % (kind, arg), 'input': inp, 'spec': via}
     if kind == 'flatten' and arg[0] == 0:
+        if via == 'wrap':
+            return R(None, 'ok', nontrivial=False)     # levels=0 with a spec: not stated
         if got[0] != 'ok' or got[1] is not target:
             return R({'expected': 'levels=0 returns the target itself', 'observed': repr(got), **where}, 'ok')
         return R(None, 'ok', steps=1, tags={kind})
     if want[0] == 'ok':
         if got[0] != 'ok' or describe(got[1]) != describe(want[1]):
             return R({'expected': repr(want[1]), 'observed': repr(got), **where}, 'ok')
-        if before is not None and canon(target) != before:
+        if before is not None and canon(inner) != before:
             return R({'expected': 'input unchanged', 'observed': repr(target), **where}, 'ok')
         shared = isinstance(got[1], (list, dict, set)) and outer != 'gen' and id(got[1]) in mutable_ids(target)
         if shared:
@@ -389,7 +399,7 @@ def run_func(case):
             return R({'expected': 'raises %s' % want[1], 'observed': repr(got[1]), **where}, 'err')
         if want[1] not in [c.__name__ for c in type(got[1]).__mro__]:
             return R({'expected': 'raises %s' % want[1], 'observed': repr(got[1]), **where}, 'err')
-    return R(None, want[0], steps=1, tags={kind})
+    return R(None, want[0], steps=1, tags={kind, 'spec=%s' % via})
 
 
 def gen_inputs(tier):
@@ -462,6 +472,11 @@ def gen_func(tier):
                 cases.append(['flatten', [levels, init], inp])
         for init in ('dict', 'odict'):
             cases.append(['merge', init, inp])
+        # the spec= argument: fetched once, whatever the number of levels
+        for via in ('T', 'wrap'):
+            for levels in (0, 1, 2, 3):
+                cases.append(['flatten', [levels, 'list'], inp, via])
+            cases.append(['merge', 'dict', inp, via])
     return cases
 
 
@@ -474,6 +489,7 @@ def subs(tier, only=None):
                  'input snapshots, init() call count and identity disjointness of inputs and results',
             min_nontrivial=10000, min_outcomes=2, required_tags=['fold', 'sum', 'flatten', 'merge', 'list', 'tuple', 'gen', 'dictkeys', 'scalar'] + list(MENUS)),
         Sub('functions', gen_func(tier), run_func,
-            rule='case = (flatten(levels 0..3, init) | merge(init), input)', min_nontrivial=1000, min_outcomes=2, required_tags=['flatten', 'merge']),
+            rule='case = (flatten(levels 0..3, init) | merge(init), input, spec= absent | T | a path to where the input sits)', min_nontrivial=1000, min_outcomes=2,
+            required_tags=['flatten', 'merge', 'spec=wrap', 'spec=T']),
     ]
     return [s for s in out if only in (None, s.name)]
